@@ -11,6 +11,11 @@ LIFTED = ['setc', 'setc', 'setc', 'swap', 'addl', 'reml', 'raise', 'lower', 'dup
 STAGE1 = ['xresize', 'xresize', 'pal', 'sauce', 'sauce', 'fontpage', 'fontpage', 'setfont', 'saucefont', 'addfont', 'addfont', 'remfont',
           'fontslot', 'fontslot', 'replfont', 'ice', 'ice', 'palmode', 'palmode']
 
+STAGE2 = ['merge', 'merge', 'merge', 'anchor', 'anchor', 'stampdown', 'stampdown', 'pastex', 'pastex', 'pastex', 'cur', 'cur']
+STAGE3 = ['crop', 'croprect', 'croprect', 'resize1', 'resize1', 'sel']
+STAGE4 = ['addmask', 'addmask', 'inverse', 'enumsel', 'clrsel', 'clrsel', 'erase', 'erase', 'sel', 'sel', 'sel', 'centerline', 'jlineleft', 'jlineright',
+          'eraserow', 'eraserow_s', 'eraserow_e', 'erasecol', 'erasecol_s', 'erasecol_e']
+
 PALS = [[0x000000, 0xAA0000, 0x00AA00, 0x0000AA], [0x101010 * k for k in range(16)], [0x000000, 0xFFFFFF], [],
         [0, 170, 43520, 43690, 11141120, 11141290, 11162880, 11184810, 5592405, 5592575, 5635925, 5636095, 16733525, 16733695, 16777045, 16777215, 0x123456, 0x00AA00]]
 
@@ -73,6 +78,13 @@ def x_op(rng, w, h, B, pool):
         a = rng.choice([1, 1, 2, 3, 0]); b = rng.choice([0, 1, 2, 3])
         if a == 0: b = 0
         return ('replfont', [a, b])
+    if f == 'merge': return ('merge', [rng.choice([0, 1, 1, 1, 2, 2, 3])])
+    if f == 'pastex':
+        pw, ph = rng.choice([1, 2, 3]), rng.choice([1, 2])
+        return ('pastex', [rng.choice([0, 1, -1, w - 2]), rng.choice([0, 1, h - 1]), pw, ph] + [B.c_cell(rng) if rng.random() < 0.7 else enc(32, 7, 0, 0, 32768) for _ in range(pw * ph)])
+    if f == 'croprect': return ('croprect', [rng.choice([0, 1, 2, -1]), rng.choice([0, 1, -1]), rng.choice([w, w // 2, 2, 1, w + 2, 0]), rng.choice([h, h // 2, 1, h + 1])])
+    if f == 'resize1': return ('resize1', [rng.choice([w, w // 2, w + 2, 1, 3]), rng.choice([h, h // 2, h + 1, 1, 2])])
+    if f == 'enumsel': return ('enumsel', [rng.choice([65, 66, 32, 112, 0])])
     if f == 'ice': return ('ice', [rng.randrange(3)])
     if f == 'palmode': return ('palmode', [rng.randrange(4)])
     return (f, [])
@@ -80,8 +92,12 @@ def x_op(rng, w, h, B, pool):
 
 X_NAME = {'xresize': 'XResize', 'pal': 'XPal', 'sauce': 'XSauce', 'fontpage': 'XFontPage', 'setfont': 'XSetFontA', 'saucefont': 'XSetFontS',
           'addfont': 'XAddFontA', 'remfont': 'XRemFont', 'fontslot': 'XFontSlot', 'replfont': 'XReplFont', 'ice': 'XIce', 'palmode': 'XPalMode',
+          'merge': 'XMerge', 'anchor': 'XAnchor', 'stampdown': 'XStamp', 'crop': 'XCrop', 'croprect': 'XCropRect', 'resize1': 'XResizeL',
+          'addmask': 'XAddMask', 'inverse': 'XInverseSel', 'enumsel': 'XEnumSel', 'clrsel': 'XClrSel', 'erase': 'XErase',
+          'centerline': 'XCenterLine', 'jlineleft': 'XJLineLeft', 'jlineright': 'XJLineRight', 'eraserow': 'XEraseRow', 'eraserow_s': 'XEraseRowS',
+          'eraserow_e': 'XEraseRowE', 'erasecol': 'XEraseCol', 'erasecol_s': 'XEraseColS', 'erasecol_e': 'XEraseColE',
           'U': 'XSU', 'R': 'XSR'}
-H_NAME = {'xresize': 'resize 0'}
+H_NAME = {'xresize': 'resize 0', 'resize1': 'resize 1'}
 
 
 def xop_text(op, B):
@@ -94,6 +110,7 @@ def xop_text(op, B):
 def xop_coq(op, B):
     f, a = op
     if f == 'pal': return '(XPal [%s])' % '; '.join(map(str, a))
+    if f == 'pastex': return '(XPaste %s %s %d %d [%s])' % (zs(a[0]), zs(a[1]), a[2], a[3], '; '.join(map(str, a[4:])))
     if f in X_NAME:
         return '(%s)' % ' '.join([X_NAME[f]] + [zs(v) for v in a]) if a else X_NAME[f]
     return '(XL (%s))' % B.op_coq(op)
@@ -189,15 +206,18 @@ X_DIRECTED = [
 def pools(stage):
     p = list(LIFTED) + ['U'] * 6 + ['R'] * 3
     if stage >= 1: p += STAGE1 * 2
+    if stage >= 2: p += STAGE2 * 2
+    if stage >= 3: p += STAGE3 * 2
+    if stage >= 4: p += STAGE4
     return p
 
 
-def correspondence_x(ctx, B, n_random):
+def correspondence_x(ctx, B, n_random, stage=4):
     rng = ctx.rng
     pr = probe(ctx)
     flips = probe_flips(ctx)
     hist = list(X_DIRECTED)
-    pool = pools(1)
+    pool = pools(stage)
     for _ in range(n_random):
         xd = x_doc(rng, B)
         n = rng.choice([3, 6, 10, 14])
